@@ -206,6 +206,29 @@ CHECKS: dict[str, dict] = {
         technique="TLC-enumerated report values instantiated and replayed through writer / json / reader + TLC acceptance of the round-trip laws",
         ref="5-C08",
     ),
+    "C18": dict(
+        engine="spec/Render.tla, spec/RenderTrace.tla (+ generated RenderRun.tla)",
+        text="Render.tla abstracts a report to per-language figure profiles (a table read off real Report objects built through Codebase.add_file) and TLC "
+             "enumerates pairs (current, optional previous) over 3 languages - languages added, removed, changed, unchanged, lines-of-code ties - and findings "
+             "scenarios (0..13 functions above 30 lines around the 10-row cut, full or not, with or without repository). Every state is rendered by the real "
+             "text and Markdown renderers on a recording console and parsed back; TLC judges each rendering (RenderTrace.tla): one row per language ordered "
+             "by lines of code, stored figures, current minus previous exactly when they differ for languages present in both and for totals, text = Markdown, "
+             "findings only above 30, longest first, at most ten unless full, exact number of omitted rows.",
+        note="LC_ALL=C; for a language present only in the current report only the number is checked; a totals row may be absent with a single language. " + BASE_NOTE,
+        technique="TLC-enumerated report pairs rendered by the real renderers + TLC trace acceptance",
+        ref="5-C18",
+    ),
+    "C06": dict(
+        engine="spec/Session.tla, spec/SessionTrace.tla",
+        text="Session.tla enumerates the schedules (every sequence of analyses over a pool of canonical, nested, malformed, Latin-1 and formerly ambiguous "
+             "files up to length L with repetitions: every permutation and prefix); they are executed in fresh subprocesses, one group per PYTHONHASHSEED, "
+             "each process running its share back to back; whole trees (the vendored corpus, a generated tree) are scanned under permuted directory orders. "
+             "SessionTrace.tla replays all logs with the state known[file]: an observation is accepted iff it equals the first digest ever seen for that file "
+             "or tree, across processes, seeds and histories.",
+        note="Functional consistency (first observation is the reference); identifier, timestamp, key order and order of entry lists of reports are ignored. " + BASE_NOTE,
+        technique="TLC-enumerated schedules executed in fresh processes per hash seed + TLC trace validation of functional consistency",
+        ref="5-C06",
+    ),
 }
 
 NOT_YET = "check not built yet in this round (see DESIGN.md section 10 for the order of work)"
